@@ -44,7 +44,7 @@ ASSUMPTIONS = [
   "computed values: animation > specified > inherited (inheritable property) > <initial> > TTML2/IMSC initial value (color: white); body inherits "
   "from the region it is flowed into; textDecoration resolves per component; tts:textAlign left/right are read as start/end (the canonical "
   "model has no absolute alignments); textDecoration is not compared for the text of a region that itself specifies a partial textDecoration (its "
-  "resolution against the initial value is ISD style computation, C03); tts:textAlign=\"justify\" is generated in one hand-made document only",
+  "resolution against the initial value is ISD style computation, C03); tts:textAlign=\"justify\" (TTML2 #textAlign-justify, outside the IMSC 1.1 text profile and not representable in the canonical model) is required to be ignored and logged like a malformed value",
   "named colours in lower case only; rgb()/rgba() without white space; an rgb component > 255 may be rejected or clamped to 255 (both accepted)",
   "[associate region]: text is shown in region R iff every `region` attribute on it and its ancestors names R (at least one does), or the document "
   "has no region at all (default region); references to unknown regions are not generated",
